@@ -44,6 +44,17 @@ type c19builder struct {
 	pos  int
 	objs []interface{}
 	raws []*fakeConn
+	owns map[interface{}][]int // raw resources (indices into raws) underneath each object
+}
+
+func (b *c19builder) own(o interface{}, r []int) interface{} {
+	if b.owns == nil {
+		b.owns = map[interface{}][]int{}
+	}
+	if _, ok := b.owns[o]; !ok {
+		b.owns[o] = r
+	}
+	return o
 }
 
 func (b *c19builder) number(o interface{}) interface{} {
@@ -66,48 +77,49 @@ func (b *c19builder) term() interface{} {
 		if hc {
 			r := &fakeConnC{fakeConn{fails: fails}}
 			b.raws = append(b.raws, &r.fakeConn)
-			return b.number(r)
+			return b.own(b.number(r), []int{len(b.raws) - 1})
 		}
 		r := &fakeConn{fails: fails}
 		b.raws = append(b.raws, r)
-		return b.number(r)
+		return b.own(b.number(r), []int{len(b.raws) - 1})
 	case "safe", "named":
 		fl := b.toks[b.pos].I
 		b.pos++
 		x := b.term()
+		under := b.owns[x]
 		named := t.W == "named"
 		switch fl {
 		case 0:
 			if named {
-				return b.number(streams.NewNamedConnection(x.(net.Conn), "n"))
+				return b.own(b.number(streams.NewNamedConnection(x.(net.Conn), "n")), under)
 			}
-			return b.number(streams.NewSafeConnection(x.(net.Conn)))
+			return b.own(b.number(streams.NewSafeConnection(x.(net.Conn))), under)
 		case 1:
 			if named {
-				return b.number(streams.NewNamedStream(x.(io.ReadWriteCloser), "n"))
+				return b.own(b.number(streams.NewNamedStream(x.(io.ReadWriteCloser), "n")), under)
 			}
-			return b.number(streams.NewSafeStream(x.(io.ReadWriteCloser)))
+			return b.own(b.number(streams.NewSafeStream(x.(io.ReadWriteCloser))), under)
 		case 2:
 			if named {
-				return b.number(streams.NewNamedReader(x.(io.ReadCloser), "n"))
+				return b.own(b.number(streams.NewNamedReader(x.(io.ReadCloser), "n")), under)
 			}
-			return b.number(streams.NewSafeReader(x.(io.ReadCloser)))
+			return b.own(b.number(streams.NewSafeReader(x.(io.ReadCloser))), under)
 		default:
 			if named {
-				return b.number(streams.NewNamedWriter(x.(io.WriteCloser), "n"))
+				return b.own(b.number(streams.NewNamedWriter(x.(io.WriteCloser), "n")), under)
 			}
-			return b.number(streams.NewSafeWriter(x.(io.WriteCloser)))
+			return b.own(b.number(streams.NewSafeWriter(x.(io.WriteCloser))), under)
 		}
 	case "pair":
 		r := b.term()
 		w := b.term()
-		return b.number(streams.NewReadWriteCloser(r.(io.ReadCloser), w.(io.WriteCloser)))
+		return b.own(b.number(streams.NewReadWriteCloser(r.(io.ReadCloser), w.(io.WriteCloser))), append(append([]int{}, b.owns[r]...), b.owns[w]...))
 	case "sim":
 		x := b.term()
-		return b.number(streams.NewSimulatedConnection(x.(io.ReadWriteCloser), streams.Localhost, streams.Localhost))
+		return b.own(b.number(streams.NewSimulatedConnection(x.(io.ReadWriteCloser), streams.Localhost, streams.Localhost)), b.owns[x])
 	case "simw":
 		x := b.term()
-		return b.number(streams.NewStreamConnection(x.(io.ReadWriteCloser), &fakeConn{}))
+		return b.own(b.number(streams.NewStreamConnection(x.(io.ReadWriteCloser), &fakeConn{})), b.owns[x])
 	}
 	panic("verifharness: bad c19 term")
 }
@@ -164,6 +176,13 @@ func init() {
 		out = append(out, TW("counts"))
 		for _, r := range b.raws {
 			out = append(out, TIn(r.count))
+		}
+		// which raw resources lie underneath each object (by construction): owns <object> <n> <raw>*
+		for k, o := range b.objs {
+			out = append(out, TW("owns"), TIn(k), TIn(len(b.owns[o])))
+			for _, r := range b.owns[o] {
+				out = append(out, TIn(r))
+			}
 		}
 		return out
 	})
